@@ -362,7 +362,10 @@ func incrBubbleCfg(sc *Sched, w *gworld, budget int) sim.BubbleConfig {
 		Guards: map[string]func() bool{
 			// Executor.dirty is held (shared) by every Run for its whole duration; a
 			// goroutine blocked on a mutex is invisible to synctest, so the
-			// scheduler lets an eviction reach Lock only when no Run is active.
+			// scheduler lets an eviction reach Lock only while the exclusive lock
+			// can really be taken. That is decided by probing the real lock, not by
+			// counting Runs, so that a Run that lets go of the lock too early is not
+			// covered up by the guard.
 			// Nor while goroutines that a cancelled Run left behind are still alive:
 			// they hold no lock, and what an eviction does to the tasks they lead is
 			// outside both the property and the model.
@@ -370,7 +373,8 @@ func incrBubbleCfg(sc *Sched, w *gworld, budget int) sim.BubbleConfig {
 				if sim.SpawnedParked() {
 					return false
 				}
-				return w.activeRuns == 0
+				canLock, _ := w.exec.VerifDirtyState()
+				return canLock
 			},
 		},
 	}
